@@ -7,7 +7,7 @@ from vlib.core import Outcome, Sub
 
 PROPERTY = "C01"
 RULE = ("history: init_adaptive_combi_scheme(d, lmin, lmax) followed by 0..40 update_adaptive_combi requests drawn "
-        "from {an active index, an old index, an arbitrary vector near the set, the previous request again}; all "
+        "from {an active index, an old index, an arbitrary vector near the set, the previous request again, re-initialisation of the same object with the same or other levels}; all "
         "invariants are evaluated after every request. Non-trivial = at least one request added forward neighbours in "
         "some but not all dimensions, or was rejected (not active), and d>=2. closed-form sub: (d,lmin,lmax) with d>=2 and "
         "lmax>lmin is non-trivial. Distinct = distinct case dict.")
@@ -132,6 +132,33 @@ def run_history(case):
             vec = lst[op[1] % len(lst)] if lst else tuple([lmin] * d)
         elif kind == "vec":
             vec = tuple(op[1][:d] + [lmin] * (d - len(op[1])))
+        elif kind == "reinit":
+            # the same object is initialised again (same or other levels), as a second perform_combi on one object does
+            lmin, lmax = (case["lmin"], case["lmax"]) if op[1] == 0 else (max(0, case["lmin"] + op[1] - 2), max(0, case["lmin"] + op[1] - 2) + op[2])
+            cs.init_adaptive_combi_scheme(lmax, lmin)
+            n = lmax - lmin
+            m_old, m_active = set(), set()
+            for l in itertools.product(range(lmin, lmax + 1), repeat=d):
+                sdiff = sum(x - lmin for x in l)
+                if sdiff < n:
+                    m_old.add(l)
+                elif sdiff == n:
+                    m_active.add(l)
+            tag = "after re-initialisation %d (lmin=%d, lmax=%d) of the same object" % (i, lmin, lmax)
+            if set(cs.old_index_set) != m_old or set(cs.active_index_set) != m_active:
+                out.bad(sub + "/reinit/sets-differ-from-a-fresh-initialisation", tag)
+                m_old, m_active = set(cs.old_index_set), set(cs.active_index_set)
+            fresh = CombiScheme(d).getCombiScheme(lmin, lmax, do_print=False)
+            a_ = sorted((tuple(int(x) for x in g.levelvector), g.coefficient) for g in fresh)
+            b_ = sorted((tuple(int(x) for x in g.levelvector), g.coefficient) for g in cs.getCombiScheme(do_print=False))
+            if a_ != b_:
+                out.bad(sub + "/reinit/scheme-differs-from-closed-form", "%s closed=%s got=%s" % (tag, a_[:5], b_[:5]))
+            check_invariants(out, sub, cs, d, lmin, tag)
+            out.cls("reinitialised-object")
+            prev = None
+            if out.violations:
+                break
+            continue
         else:  # repeat
             vec = prev if prev is not None else tuple([lmin] * d)
         prev = vec
@@ -216,11 +243,13 @@ def history_strategy(tier):
         nops = draw(st.integers(0, maxops if d <= 3 else maxops // 2))
         ops = []
         for _ in range(nops):
-            k = draw(st.sampled_from(["active", "active", "active", "active", "old", "vec", "repeat"]))
+            k = draw(st.sampled_from(["active", "active", "active", "active", "active", "active", "old", "vec", "repeat", "reinit"]))
             if k in ("active", "old"):
                 ops.append([k, draw(st.integers(0, 60))])
             elif k == "vec":
                 ops.append([k, draw(st.lists(st.integers(max(0, lmin - 1), lmax + 3), min_size=d, max_size=d))])
+            elif k == "reinit":
+                ops.append([k, draw(st.sampled_from([0, 0, 0, 1, 2, 3])), draw(st.integers(0, 3))])
             else:
                 ops.append([k])
         return dict(d=d, lmin=lmin, lmax=lmax, ops=ops)
